@@ -17,6 +17,19 @@ CLAIMED = {
         "technique": "Coq proof over a Gallina model of forest counting/indexing + differential correspondence on impl forests",
         "design": "DESIGN.md section 7, C03",
     },
+    "C04": {
+        "text": "Unbounded Coq theorems: table_struct (a boolean validator run on the impl's real table with the impl's own "
+                "LR(0) item sets) implies that every accepting run of the nondeterministic LR machine N(T) -- hence of the LR "
+                "driver model under every scanner, layout function and strategy -- returns a derivation tree rooted in the start "
+                "symbol whose leaves are the shifted tokens; tree_ok is an exact derivation checker. Driver, scanner and layout "
+                "models are tied to /repo by differential runs (8 option combinations, trees with positions/layout, error kind "
+                "and position); exactness for deterministic tables is decided against a reference parser whose derivations are "
+                "certified by tree_ok, and GLR is compared on those tables.",
+        "note": "Partial: no completeness theorem for deterministic tables yet (that half is differential + certified oracle). "
+                "Trusted: Coq kernel, extraction, OCaml driver, table/grammar/forest dumps, match matrix from the impl's recognizers.",
+        "technique": "Coq-verified table validator + N(T) soundness theorem + LR driver simulation proof; differential correspondence",
+        "design": "DESIGN.md section 7, C04",
+    },
 }
 
 NOT_YET = "machinery for this property is not built yet in this commit (planned, see DESIGN.md section 12)"
